@@ -57,6 +57,8 @@ type FuncContract struct {
 	LoopMod  map[int][]*Clause
 	Monitor  []*Clause
 	Uses     []string
+	Apply    []string
+	LoopApply map[int][]*Clause
 	Ghost    []*Clause
 	Effects  []*Clause // ghost effects: "effect run(self.metadata)" etc.
 	Assume   []*Clause
@@ -84,6 +86,7 @@ type Lemma struct {
 	Text   string
 	Axiom  bool
 	Uses   []string
+	Apply  []string
 	Where  string
 	Vars   []CVar
 	Expect string // "" (must hold) or "fail" is not allowed; kept for known-finding bookkeeping
@@ -110,7 +113,7 @@ func NewContracts() *Contracts {
 
 var clauseKeywords = map[string]bool{"requires": true, "ensures": true, "modifies": true, "loop": true, "mode": true, "arith": true,
 	"nopanic": true, "monitor": true, "trusted": true, "pure": true, "property": true, "invariant": true, "guarded_by": true,
-	"uses": true, "ghost": true, "effect": true, "assume": true, "inline": true, "opt": true, "params": true, "let": true, "probe": true}
+	"uses": true, "apply": true, "ghost": true, "effect": true, "assume": true, "inline": true, "opt": true, "params": true, "let": true, "probe": true}
 
 func (cs *Contracts) LoadFile(path string) error {
 	data, err := os.ReadFile(path)
@@ -230,13 +233,15 @@ func (cs *Contracts) LoadFile(path string) error {
 			mode := ""
 			for _, h := range head[1:] {
 				switch h {
-				case "property", "uses":
+				case "property", "uses", "apply":
 					mode = h
 				default:
 					if mode == "property" {
 						lm.Props = append(lm.Props, h)
 					} else if mode == "uses" {
 						lm.Uses = append(lm.Uses, h)
+					} else if mode == "apply" {
+						lm.Apply = append(lm.Apply, h)
 					}
 				}
 			}
@@ -291,6 +296,9 @@ func (cs *Contracts) LoadFile(path string) error {
 				curF.Inline = true
 			case "uses":
 				curF.Uses = append(curF.Uses, strings.Fields(rest)...)
+			case "apply":
+				// apply <lemma>...: the named lemmas (proved as obligations of their own) are assumed here
+				curF.Apply = append(curF.Apply, strings.Fields(rest)...)
 			case "params":
 				for _, p := range strings.Split(rest, ",") {
 					curF.Params = append(curF.Params, strings.TrimSpace(p))
@@ -374,6 +382,17 @@ func (cs *Contracts) LoadFile(path string) error {
 					} else {
 						curF.LoopDec[n] = append(curF.LoopDec[n], cl)
 					}
+				case "apply":
+					// loop N apply lemma(args): the lemma instance at the loop head is assumed
+					cl, err := mkClause("apply", r3, where)
+					if err != nil {
+						return err
+					}
+					cl.Loop = n
+					if curF.LoopApply == nil {
+						curF.LoopApply = map[int][]*Clause{}
+					}
+					curF.LoopApply[n] = append(curF.LoopApply[n], cl)
 				case "modifies":
 					for _, part := range splitTop(r3, ',') {
 						cl, err := mkClause("modifies", part, where)
